@@ -106,7 +106,7 @@ impl Settings {
     /// The cooling factor the property (C18) states.
     pub fn spec_factor(&self) -> f64 {
         match (self.kt_ratio, self.kt_finish) {
-            (Some(r), _) => 1. - r,
+            (Some(r), _) => f64::max(0., 1. - r),
             (None, Some(f)) if self.kt_start > 0. && self.loops() > 0 => {
                 f64::powf(f / self.kt_start, 1. / self.loops() as f64)
             }
@@ -708,6 +708,8 @@ struct Hist {
     accepted: bool,
     // the observations do not determine this decision (two consistent histories merged here)
     ambiguous: std::cell::Cell<bool>,
+    // ... and the two histories differ over more than this one step
+    deep: std::cell::Cell<bool>,
     prev: Option<Rc<Hist>>,
 }
 
@@ -728,6 +730,10 @@ fn merge_mark(keep: &Option<Rc<Hist>>, other: &Option<Rc<Hist>>) -> bool {
                     return true;
                 }
                 x.ambiguous.set(true);
+                if walked > 1 {
+                    x.deep.set(true);
+                    y.deep.set(true);
+                }
                 a = x.prev.clone();
                 b = y.prev.clone();
             }
@@ -867,13 +873,13 @@ pub fn monitor(run: &Run) -> (Vec<Finding>, Stats) {
                     next.push(Cand {
                         cur: call.vec.clone(),
                         score: sc,
-                        hist: Some(Rc::new(Hist { step: k, accepted: true, ambiguous: std::cell::Cell::new(false), prev: c.hist.clone() })),
+                        hist: Some(Rc::new(Hist { step: k, accepted: true, ambiguous: std::cell::Cell::new(false), deep: std::cell::Cell::new(false), prev: c.hist.clone() })),
                     });
                 }
                 next.push(Cand {
                     cur: c.cur.clone(),
                     score: c.score,
-                    hist: Some(Rc::new(Hist { step: k, accepted: false, ambiguous: std::cell::Cell::new(false), prev: c.hist.clone() })),
+                    hist: Some(Rc::new(Hist { step: k, accepted: false, ambiguous: std::cell::Cell::new(false), deep: std::cell::Cell::new(false), prev: c.hist.clone() })),
                 });
             }
             if !next.is_empty() {
@@ -943,10 +949,12 @@ pub fn monitor(run: &Run) -> (Vec<Finding>, Stats) {
         // unwind the history
         let mut dec: Vec<bool> = vec![false; steps_done as usize + 1];
         let mut ambig: Vec<bool> = vec![false; steps_done as usize + 1];
+        let mut deep_ambig = false;
         let mut h = cand.hist.clone();
         while let Some(n) = h {
             dec[n.step as usize] = n.accepted;
             ambig[n.step as usize] = n.ambiguous.get();
+            deep_ambig |= n.deep.get();
             h = n.prev.clone();
         }
         let mut cur = c0.vec.clone();
@@ -1094,8 +1102,10 @@ pub fn monitor(run: &Run) -> (Vec<Finding>, Stats) {
                     count = 0;
                 }
             }
-            let any_ambig = ambig.iter().any(|x| *x);
-            if !any_ambig {
+            // a single undetermined step (a proposal equal to the held state) leaves state and score
+            // the same either way; histories that differ over several steps may differ in the score
+            // at a loop boundary, and then nothing is concluded
+            if !deep_ambig {
                 match (expected_stop, stats.converged_early) {
                     (Some(l), _) if l < loops_run => v.push(Finding {
                         property: "C20",
